@@ -85,7 +85,33 @@ pub fn k_fill_buf_fault_f7_c5<N: Nd>(nd: &mut N) {
     k_fill_buf::<N, 7, 5, true>(nd)
 }
 
+/// `trim_cr` on every line of <= 4 bytes: exactly one final CR is removed, nothing else changes
+/// (every byte string is a possible line content, so no reachability argument is needed)
+pub fn k_trim_cr<N: Nd>(nd: &mut N) {
+    let mut line = [0u8; 4];
+    let mut i = 0;
+    while i < 4 {
+        line[i] = nd.u8();
+        i += 1;
+    }
+    let l = nd.usize_in(0, 4);
+    nd.note("line", &line[..l]);
+    let t = seq_io::verif_trim_cr(&line[..l]);
+    let cr = l > 0 && line[l - 1] == b'\r';
+    let want = if cr { l - 1 } else { l };
+    vassert!(t.len() == want, "C12 exactly one final CR is removed from a line, and only a final CR");
+    vassert!(t.len() == want, "C01 a FASTA line is returned without its terminator (LF or CRLF) and otherwise unchanged");
+    vassert!(t.len() == want, "C02 a FASTQ line is returned without its terminator (LF or CRLF) and otherwise unchanged");
+    vassert!(t.len() == want, "C13 line views exclude exactly the terminator");
+    vassert!(t.as_ptr() == line.as_ptr(), "C12 the trimmed line is a prefix of the line");
+    cover!(cr && l == 1, "line consisting of a CR only");
+    cover!(cr && l > 1, "CR after content");
+    cover!(!cr && l > 0, "no CR");
+}
+
 harnesses! {
+    /// @meta props=C12,C01,C02,C13 tier=quick kind=R timeout=300 mem=8 unwind=6 bounds="seq_io::trim_cr on every byte string of length 0..=4"
+    libk_trim_cr => k_trim_cr;
     /// @meta props=C03,C14,C01,C02,C09:t tier=quick kind=K stage2=pub timeout=1500 mem=12 unwind=10 bounds="seq_io::fill_buf on capacity 5 over every file <= 7 bytes: every chunking of the first 6 source calls (1..all bytes), every pattern of interrupted reads among them, every prefix already buffered"
     libk_fill_buf_f7_c5 => k_fill_buf_f7_c5;
     /// @meta props=C14,C06:t tier=quick kind=K stage2=pub timeout=1500 mem=12 unwind=10 bounds="seq_io::fill_buf on capacity 5, file <= 7 bytes, chunking and interrupts as above, plus a hard error of any of 4 kinds at any of the first 6 source calls"
